@@ -392,7 +392,19 @@ func TestVerifC17Gossip(t *testing.T) {
 							k := hk(p)
 							idwRPCs[k]++
 							w.note("idontwant(%s,%v)#%d", gp.p.name, ids, idwRPCs[k])
-							w.send(gp, &pb.RPC{Control: &pb.ControlMessage{Idontwant: []*pb.ControlIDontWant{{MessageIDs: ids}}}})
+							// the ids travel in one entry or spread over several entries of the same RPC (the length cap is per RPC)
+							var entries []*pb.ControlIDontWant
+							if len(ids) > 1 && c.Chance(0.5) {
+								cut := c.Range(1, len(ids)-1)
+								entries = []*pb.ControlIDontWant{{MessageIDs: ids[:cut]}, {MessageIDs: ids[cut:]}}
+								if len(ids)-cut > 1 && c.Chance(0.4) {
+									cut2 := cut + c.Range(1, len(ids)-cut-1)
+									entries = []*pb.ControlIDontWant{{MessageIDs: ids[:cut]}, {MessageIDs: ids[cut:cut2]}, {MessageIDs: ids[cut2:]}}
+								}
+							} else {
+								entries = []*pb.ControlIDontWant{{MessageIDs: ids}}
+							}
+							w.send(gp, &pb.RPC{Control: &pb.ControlMessage{Idontwant: entries}})
 							vSettle(5 * time.Millisecond)
 							for i, id := range ids {
 								if idwRPCs[k] <= params.MaxIDontWantMessages && i < params.MaxIDontWantLength {
